@@ -200,8 +200,22 @@ class Print_best_assumed:
 
 SIM_CB = "syne_tune.backend.simulator_backend.simulator_callback"
 
-declare_class("TunerSC", TUNER + ":Tuner", dict(stop_criterion=Obj("StoppingCriterion")))
-declare_class("SimulatorCallback", SIM_CB + ":SimulatorCallback", dict(_backup_stop_criterion=Opt(Obj("StoppingCriterion"))))
+declare_class(
+    "StoppingCriterionUser",
+    STOPC + ":StoppingCriterion",
+    dict(
+        max_wallclock_time=Opt(Real),
+        max_num_evaluations=Opt(Int),
+        max_num_trials_started=Opt(Int),
+        max_num_trials_completed=Opt(Int),
+        max_cost=Opt(Real),
+        max_num_trials_finished=Opt(Int),
+        min_metric_value=Opt(Rec(loss=Real)),
+        max_metric_value=Opt(Rec(loss=Real)),
+    ),
+)
+declare_class("TunerSC", TUNER + ":Tuner", dict(stop_criterion=Obj("StoppingCriterionUser")))
+declare_class("SimulatorCallback", SIM_CB + ":SimulatorCallback", dict(_backup_stop_criterion=Opt(Obj("StoppingCriterionUser"))))
 
 
 @contract(SIM_CB + ":SimulatorCallback._modify_stop_criterion", props=("C12", "C10"), has_lists=False)
@@ -209,8 +223,7 @@ class SimCallback_modify_stop_criterion:
     params = dict(self=Obj("SimulatorCallback"), tuner=Obj("TunerSC"))
 
     def requires(s):
-        # metric thresholds given by the user are out of scope of the rewrite (it would drop them): none given
-        return {"no-user-metric-thresholds": s.tuner.stop_criterion.max_metric_value is None and s.tuner.stop_criterion.min_metric_value is None}
+        return True
 
     def ensures(old, s, result):
         c0 = old.tuner.stop_criterion
@@ -224,6 +237,9 @@ class SimCallback_modify_stop_criterion:
             "finished-kept": c1.max_num_trials_finished == c0.max_num_trials_finished,
             "cost-kept": c1.max_cost == c0.max_cost,
             "evaluations-kept": c1.max_num_evaluations == c0.max_num_evaluations,
+            # thresholds on metrics given by the user stay in force (they were dropped before fix 7c13350 in /repo)
+            "user-lower-thresholds-kept": (c1.min_metric_value is None) if c0.min_metric_value is None else (c1.min_metric_value is not None and c1.min_metric_value["loss"] == c0.min_metric_value["loss"]),
+            "user-upper-thresholds-kept": True if c0.max_metric_value is None else ("loss" in c1.max_metric_value and c1.max_metric_value["loss"] == c0.max_metric_value["loss"]),
             "backup": unchanged(s.self._backup_stop_criterion, c0),
         }
 
@@ -268,6 +284,11 @@ class TS_mark_running_job_as_stopped:
             and s.self.num_trials_running == 0
             and s.self.num_trials_finished == n_with(t0, lambda v: v == "Completed" or v == "Failed" or v == "Stopped" or v == "Stopping" or v == "InProgress"),
         }
+
+
+from pyvc.native import native_monitor  # noqa: E402
+
+EXTRA_CHECKS = [native_monitor("C12", "contracts.c12_native", "monitor_termination", "termination", "about 910 (thorough 4700) real Tuner runs on a deterministic in-memory back end and on the simulator (scripted, FIFO, Hyperband stopping / promotion, median rule, PBT; 1..4 workers; every StoppingCriterion field alone, in pairs and all together at value-1 / value / value+1; failure limits; exceptions), status counters and ~40 probe criteria compared with an independent event log after every loop iteration")]
 
 
 # at the end (mutual import with contracts.c01): trials started by a batch must stay the tuner's business, also when the
